@@ -5,7 +5,7 @@ from .common import NONE
 
 TIER = os.environ.get("VERIF_TIER", "quick")
 
-RVIAS = ["rows", "flat", "shape", "rowview", "colview", "stepview", "revview", "listview", "ufunc", "assigned", "nprows", "pylists", "unsafe"]
+RVIAS = ["rows", "flat", "shape", "rowview", "colview", "stepview", "revview", "listview", "ufunc", "assigned", "nprows", "pylists", "unsafe", "pickled", "copied"]
 
 
 def safe_opts(opts):
@@ -81,7 +81,7 @@ def _variants(prop, case):
     if op.startswith("bit_"):
         return [{"indt": ["u8", "u4", "u2", "u1", "i8", "i4"][h % 6], "npidx": bool(h & 8), "listkind": ["list", "array"][(h // 16) % 2], "again": bool(h & 64),
                  "repack": bool(h & 128), "pre_w": [0, 1, 2, 3][(h // 256) % 4], "npw": [None, "i8", "i4", "u1"][(h // 1024) % 4],
-                 "idxdt": ["i8", "u1", "i2", "u2"][(h // 4096) % 4]}]
+                 "idxdt": ["i8", "u1", "i2", "u2"][(h // 4096) % 4], "pickled": bool(h & 16384)}]
     if op.startswith("dc_"):
         x = {"listmask": bool(h & 1), "npint": bool(h & 2), "firstdt": [None, "u1", "i2"][(h // 4) % 3], "layout": ["C", "F", "T", "mixed"][(h // 16) % 4]}
         return [dict(x), dict(x, inherit=True)] if len(case[1][0] if op != "dc_concat" else case[1][0][0]) > 1 else [x]
